@@ -716,13 +716,13 @@ def run(ctx):
                                   "delivered, its link went down before the commit_sig it owes in return, and after "
                                   "the reconnect that signature is never sent" % (c["why"], owed)]},
                               signature="threehop owed-commit-sig-not-sent-after-reconnect")
-            elif sp_variant(c) and not c["quiescent"] and silent_ms(c) >= 2500:
+            elif case_sp(c) is not None and not c["quiescent"] and silent_ms(c) >= 2500:
                 # a tiny deterministic scenario with ONE fault and generous timeouts: not resolving is
                 # the "nothing is left dangling" clause itself
                 ctx.violation("impl_violates_predicate", "C08_quiescent_balance",
                               {"case": slim(c), "stop_point": case_sp(c), "link_failures": linkfail,
                                "fails": ["htlcs / circuits left dangling after stop point %s (%s): %s; payments %s"
-                                         % (c["fault"], c["extra"].get("baseline_hook", "transaction"),
+                                         % (c["fault"], c["extra"].get("baseline_hook") or case_sp(c).get("key") or "transaction",
                                             c["why"], [p["result"] for p in c["pays"]])]},
                               signature="threehop stop-point dangling %s" % c["fault"])
             elif funds_missing(c):
